@@ -1,6 +1,8 @@
 (* C15 - property theorems only: invariances of the likelihood template (Ref level); C01 lifts them to the implementation. *)
-From Coq Require Import String List Permutation Ring Field.
-Require Import PV.Num PV.Sort PV.Spec PV.Impl PV.Ref PV.Invariance PV.Config.
+From Coq Require Import String List Permutation Ring Field Reals.
+Require Import PV.Num PV.Sort PV.Spec PV.Impl PV.Ref PV.Invariance PV.Config PV.InterpQ PV.EngineRun PV.RefineRates PV.RefineTop
+               PV.InvarianceSpec PV.InvarianceRewrite PV.InvarianceReorder PV.InvarianceRename PV.InvarianceSplit
+               PV.InvarianceProfile PV.InvarianceExamples.
 Import ListNotations.
 
 Theorem C15_sample_rate_perm_modifiers : forall N, ring_theory (n0 N) (n1 N) (nadd N) (nmul N) (nsub N) (nopp N) eq ->
@@ -37,9 +39,175 @@ Theorem C15_sorted_lists_listing_invariant : forall (l l' : list string),
   (forall x, In x l <-> In x l') -> sort_uniq l = sort_uniq l'.
 Proof. exact sort_uniq_ext. Qed.
 
+(* ================= specification level: ANY specification of any size, any ring of numbers, any interpolation functions ================= *)
+
+(* 1. Listing order.  sp' is sp with its channel list, every sample list, every modifier list and the measurement's
+   parameter list permuted (spec_reorder: Permutation + pairwise pairing).  The expected data are EQUAL LISTS (channels are
+   laid out in sorted name order) and the likelihood terms are the same multiset.  Premises: distinct channel names, every
+   sample of a channel has the channel's bin count; for the terms: one modifier per (name, type) in a sample and one
+   configuration per parameter (all four are guaranteed for accepted specifications, Wf.v). *)
+Theorem C15_reorder_invariant : forall N, ring_theory (n0 N) (n1 N) (nadd N) (nmul N) (nsub N) (nopp N) eq ->
+  forall ia im nc hc cs cb (sp sp' : spec N), spec_reorder N sp sp' ->
+  NoDup (map c_name (channels sp)) ->
+  (forall c s, In c (channels sp) -> In s (c_samples c) -> length (s_data s) = chan_nbins N c) ->
+  (forall theta, ref_expected N ia im nc hc cs cb sp' theta = ref_expected N ia im nc hc cs cb sp theta) /\
+  ((forall c s, In c (channels sp) -> In s (c_samples c) -> NoDup (map mkey (s_mods s))) -> NoDup (map pc_name (parameters sp)) ->
+   forall theta obs aux, Permutation (ref_terms N ia im nc hc cs cb sp' theta obs aux) (ref_terms N ia im nc hc cs cb sp theta obs aux)).
+Proof. exact reorder_invariant. Qed.
+(* ... and through C01: the implementation models of sp and of any re-listing sp' compute the same expected data at
+   parameter vectors that agree by parameter NAME (same premises as C01, for both specifications) *)
+Theorem C15_reorder_invariant_impl : forall N, ring_theory (n0 N) (n1 N) (nadd N) (nmul N) (nsub N) (nopp N) eq ->
+  forall ia im (sp sp' : spec N) st md md' pars pars',
+  spec_reorder N sp sp' ->
+  build N sp = Ok md -> build N sp' = Ok md' ->
+  shape_ok N sp -> shape_ok N sp' -> clip_guard N st -> layout_okb N sp md = true -> layout_okb N sp' md' = true ->
+  (forall n k, theta N md (parf N pars) n k = theta N md' (parf N pars') n k) ->
+  expected_actualdata N ia im sp st md pars = expected_actualdata N ia im sp' st md' pars'.
+Proof. exact reorder_invariant_impl. Qed.
+(* every specification has a non-trivial re-listing: all lists reversed *)
+Theorem C15_reverse_is_reorder : forall N (sp : spec N), spec_reorder N sp (rev_spec N sp).
+Proof. exact rev_spec_reorder. Qed.
+
+(* 2a. Injective renaming f of the modifier (= parameter) names, applied to the modifiers, the measurement's parameter
+   configurations and the POI: equal expected data and EQUAL term lists (a fortiori the same multiset) whenever the
+   parameter and auxiliary-data functions are renamed along (theta' (f n) = theta n, aux' (f n) = aux n). *)
+Theorem C15_rename_parameters_invariant : forall N ia im nc hc cs cb (f : string -> string), (forall a b, f a = f b -> a = b) ->
+  forall (sp : spec N) theta theta', (forall n k, theta' (f n) k = theta n k) ->
+  ref_expected N ia im nc hc cs cb (rename_parameters N f sp) theta' = ref_expected N ia im nc hc cs cb sp theta /\
+  forall obs aux aux', (forall n k, aux' (f n) k = aux n k) ->
+    ref_terms N ia im nc hc cs cb (rename_parameters N f sp) theta' obs aux' = ref_terms N ia im nc hc cs cb sp theta obs aux /\
+    Permutation (ref_terms N ia im nc hc cs cb (rename_parameters N f sp) theta' obs aux') (ref_terms N ia im nc hc cs cb sp theta obs aux).
+Proof. exact rename_parameters_invariant. Qed.
+(* 2b. Renaming g of the channel names: every channel keeps its rates, the expected data are the same blocks in the order
+   of the new names (Permutation), the terms the same multiset when the observations are renamed along.  Premise
+   stat_local: no staterror parameter is shared between channels (pyhf's own naming: staterror_<channel>); without it the
+   statement is false, see the refutation below.  Injectivity of g is not needed at the template level. *)
+Theorem C15_rename_channels_invariant : forall N ia im nc hc cs cb (g : string -> string) (sp : spec N), stat_local N sp ->
+  forall theta : string -> nat -> V N,
+  (forall c b, In c (channels sp) -> ref_rate N ia im nc hc cs cb (rename_channels N g sp) theta (renc N g c) b = ref_rate N ia im nc hc cs cb sp theta c b) /\
+  Permutation (ref_expected N ia im nc hc cs cb (rename_channels N g sp) theta) (ref_expected N ia im nc hc cs cb sp theta) /\
+  forall obs obs' aux : string -> nat -> V N, (forall c b, In c (channels sp) -> obs' (g (c_name c)) b = obs (c_name c) b) ->
+    Permutation (ref_terms N ia im nc hc cs cb (rename_channels N g sp) theta obs' aux) (ref_terms N ia im nc hc cs cb sp theta obs aux).
+Proof. exact rename_channels_invariant. Qed.
+Theorem C15_rename_channels_shared_staterror_refuted :
+  exists c b theta, In c (channels ex_shared) /\
+    ref_rate QcNum ia im "code1" "code0" None None (rename_channels QcNum ex_flip ex_shared) theta (renc QcNum ex_flip c) b
+    <> ref_rate QcNum ia im "code1" "code0" None None ex_shared theta c b.
+Proof. exact rename_channels_shared_staterror_refuted. Qed.
+
+(* 3. A sample with all-zero yields of the channel's length and no modifiers added to one channel (at the head of its
+   sample list; any other position by C15_reorder_invariant): expected data equal, terms the same multiset.  Guard as at
+   cell level: per-sample clip absent or not positive. *)
+Theorem C15_zero_sample_invariant_spec : forall N, ring_theory (n0 N) (n1 N) (nadd N) (nmul N) (nsub N) (nopp N) eq ->
+  forall ia im nc hc cs cb (sp : spec N) pre post c0 s0,
+  channels sp = pre ++ c0 :: post -> NoDup (map c_name (channels sp)) ->
+  s_mods s0 = [] -> length (s_data s0) = chan_nbins N c0 -> (forall b, nth b (s_data s0) (n0 N) = n0 N) ->
+  match cs with Some cv => nltb N (n0 N) cv = false | None => True end ->
+  forall theta obs aux,
+  ref_expected N ia im nc hc cs cb (with_channels sp (pre ++ add_sample N s0 c0 :: post)) theta = ref_expected N ia im nc hc cs cb sp theta /\
+  Permutation (ref_terms N ia im nc hc cs cb (with_channels sp (pre ++ add_sample N s0 c0 :: post)) theta obs aux)
+              (ref_terms N ia im nc hc cs cb sp theta obs aux).
+Proof. exact zero_sample_invariant_spec. Qed.
+
+(* 4. A null systematic added to one sample: a normsys whose factor is 1 at every alpha or a histosys whose shift is 0 in
+   every bin at every alpha (null_mod; C03 proves both for lo = hi = nominal).  Expected data equal; the terms gain exactly
+   the constraint term TNorm (aux n 0) (theta n 0) 1 when the name n is new among the normsys/histosys names, nothing otherwise. *)
+Theorem C15_null_systematic_invariant_spec : forall N, ring_theory (n0 N) (n1 N) (nadd N) (nmul N) (nsub N) (nopp N) eq ->
+  forall ia im nc hc cs cb (sp : spec N) pre post c0 spre spost s1 m0,
+  channels sp = pre ++ c0 :: post -> c_samples c0 = spre ++ s1 :: spost -> NoDup (map c_name (channels sp)) ->
+  null_mod N ia im nc hc s1 m0 ->
+  forall theta obs aux,
+  let sp' := with_channels sp (pre ++ with_samples c0 (spre ++ add_mod N m0 s1 :: spost) :: post) in
+  ref_expected N ia im nc hc cs cb sp' theta = ref_expected N ia im nc hc cs cb sp theta /\
+  (In (m_name m0) (alpha_names N sp) ->
+     Permutation (ref_terms N ia im nc hc cs cb sp' theta obs aux) (ref_terms N ia im nc hc cs cb sp theta obs aux)) /\
+  (~ In (m_name m0) (alpha_names N sp) ->
+     Permutation (ref_terms N ia im nc hc cs cb sp' theta obs aux)
+                 (TNorm (aux (m_name m0) O) (theta (m_name m0) O) (n1 N) :: ref_terms N ia im nc hc cs cb sp theta obs aux)).
+Proof. exact null_systematic_invariant_spec. Qed.
+
+(* 5. A channel cut after its first k bins into two channels (samples, bin-wise data and histosys variations cut along):
+   the Poisson terms of the main measurement are the same multiset.  PARTIAL: proved for channels whose modifiers carry no
+   per-bin parameter (no staterror, shapesys, shapefactor; for those the parameter itself would have to be split and the
+   component layout of every channel sharing a staterror would move) and for the main terms; the constraint terms of such
+   a channel are not touched by the cut but that is not part of this statement. *)
+Theorem C15_split_channel_invariant_partial : forall N ia im nc hc cs cb k (sp : spec N) pre post c0 n1' n2' theta,
+  channels sp = pre ++ c0 :: post -> k <= chan_nbins N c0 ->
+  (forall s m, In s (c_samples c0) -> In m (s_mods s) -> bin_free N m) ->
+  forall obs obs' : string -> nat -> V N,
+  (forall b, obs' n1' b = obs (c_name c0) b) -> (forall b, obs' n2' b = obs (c_name c0) (k + b)) ->
+  (forall c b, In c (pre ++ post) -> obs' (c_name c) b = obs (c_name c) b) ->
+  Permutation (ref_main_terms N ia im nc hc cs cb (with_channels sp (pre ++ cut_channel N (firstn k) n1' c0 :: cut_channel N (skipn k) n2' c0 :: post)) theta obs')
+              (ref_main_terms N ia im nc hc cs cb sp theta obs).
+Proof. exact split_channel_invariant. Qed.
+
+(* 6. Two adjacent samples of one channel with identical modifier lists, no histosys, equal lengths and no per-sample clip
+   replaced by one sample with the summed yields: the channel's rates, the expected data and the main Poisson terms are
+   unchanged (distributivity).  (Any two samples can be made adjacent by C15_reorder_invariant.  The MC-statistical
+   constraint terms of the two samples are a different likelihood and are not claimed.) *)
+Theorem C15_merge_identical_samples_invariant : forall N, ring_theory (n0 N) (n1 N) (nadd N) (nmul N) (nsub N) (nopp N) eq ->
+  forall ia im nc hc cb (sp : spec N) pre post c0 spre spost s1 s2,
+  channels sp = pre ++ c0 :: post -> c_samples c0 = spre ++ s1 :: s2 :: spost -> NoDup (map c_name (channels sp)) ->
+  s_mods s2 = s_mods s1 -> length (s_data s1) = length (s_data s2) -> (forall m, In m (s_mods s1) -> m_type m <> Histosys) ->
+  forall theta obs,
+  let c0' := with_samples c0 (spre ++ merged N s1 s2 :: spost) in
+  (forall b, ref_rate N ia im nc hc None cb sp theta c0' b = ref_rate N ia im nc hc None cb sp theta c0 b) /\
+  ref_expected N ia im nc hc None cb (with_channels sp (pre ++ c0' :: post)) theta = ref_expected N ia im nc hc None cb sp theta /\
+  ref_main_terms N ia im nc hc None cb (with_channels sp (pre ++ c0' :: post)) theta obs = ref_main_terms N ia im nc hc None cb sp theta obs.
+Proof. exact merge_identical_samples_invariant. Qed.
+
+(* 7. Yields of every sample carrying the normfactor mu multiplied by k <> 0, theta mu divided by k: expected data and main
+   terms unchanged.  Premises: the name mu is used for that normfactor only, at most once per sample, and the signal
+   samples carry no histosys (whose variations would have to be rescaled as well). *)
+Theorem C15_signal_rescale_covariant_spec : forall N,
+  field_theory (n0 N) (n1 N) (nadd N) (nmul N) (nsub N) (nopp N) (ndiv N) (ninv N) eq ->
+  forall ia im nc hc cs cb (mu : string) (k : V N), k <> n0 N ->
+  forall (sp : spec N) (theta : string -> nat -> V N),
+  NoDup (map c_name (channels sp)) ->
+  (forall c s m, In c (channels sp) -> In s (c_samples c) -> In m (s_mods s) -> m_name m = mu -> m_type m = Normfactor) ->
+  (forall c s, In c (channels sp) -> In s (c_samples c) -> has_mod N s mu Normfactor = true -> NoDup (map mkey (s_mods s))) ->
+  (forall c s m, In c (channels sp) -> In s (c_samples c) -> has_mod N s mu Normfactor = true -> In m (s_mods s) -> m_type m <> Histosys) ->
+  forall obs,
+  ref_expected N ia im nc hc cs cb (rescale_signal N mu k sp) (rescale_theta N mu k theta) = ref_expected N ia im nc hc cs cb sp theta /\
+  ref_main_terms N ia im nc hc cs cb (rescale_signal N mu k sp) (rescale_theta N mu k theta) obs = ref_main_terms N ia im nc hc cs cb sp theta obs.
+Proof. exact signal_rescale_covariant_spec. Qed.
+
+(* 8. Statistics defined through infima: phi carries the feasible set S onto S' and the constrained set A onto A', and
+   L' (phi x) = L x + c on S.  Then the infima differ by c and 2 (inf_A' L' - inf_S' L') = 2 (inf_A L - inf_S L); with
+   explicit minimisers: phi carries minimisers to minimisers and the statistic is equal. *)
+Theorem C15_profile_invariant : forall (X Y : Type) (L : X -> R) (L' : Y -> R) (phi : X -> Y) (c : R)
+  (S A : X -> Prop) (S' A' : Y -> Prop),
+  (forall x, S x -> S' (phi x)) -> (forall y, S' y -> exists x, S x /\ phi x = y) ->
+  (forall x, A x -> S x) -> (forall x, A x -> A' (phi x)) -> (forall y, A' y -> exists x, A x /\ phi x = y) ->
+  (forall x, S x -> L' (phi x) = (L x + c)%R) ->
+  forall a m a' m', is_inf A L a -> is_inf S L m -> is_inf A' L' a' -> is_inf S' L' m' ->
+  m' = (m + c)%R /\ a' = (a + c)%R /\ (2 * (a' - m') = 2 * (a - m))%R.
+Proof. exact profile_invariant. Qed.
+Theorem C15_profile_invariant_argmin : forall (X Y : Type) (L : X -> R) (L' : Y -> R) (phi : X -> Y) (c : R)
+  (S A : X -> Prop) (S' A' : Y -> Prop),
+  (forall x, S x -> S' (phi x)) -> (forall y, S' y -> exists x, S x /\ phi x = y) ->
+  (forall x, A x -> S x) -> (forall x, A x -> A' (phi x)) -> (forall y, A' y -> exists x, A x /\ phi x = y) ->
+  (forall x, S x -> L' (phi x) = (L x + c)%R) ->
+  forall xa xs, is_argmin A L xa -> is_argmin S L xs ->
+  is_argmin A' L' (phi xa) /\ is_argmin S' L' (phi xs) /\ (2 * (L' (phi xa) - L' (phi xs)) = 2 * (L xa - L xs))%R.
+Proof. exact profile_invariant_argmin. Qed.
+
 Print Assumptions C15_sample_rate_perm_modifiers.
 Print Assumptions C15_ref_rate_perm_samples.
 Print Assumptions C15_zero_sample_invariant.
 Print Assumptions C15_neutral_modifier_invariant.
 Print Assumptions C15_signal_rescale_cell.
 Print Assumptions C15_sorted_lists_listing_invariant.
+Print Assumptions C15_reorder_invariant.
+Print Assumptions C15_reorder_invariant_impl.
+Print Assumptions C15_reverse_is_reorder.
+Print Assumptions C15_rename_parameters_invariant.
+Print Assumptions C15_rename_channels_invariant.
+Print Assumptions C15_rename_channels_shared_staterror_refuted.
+Print Assumptions C15_zero_sample_invariant_spec.
+Print Assumptions C15_null_systematic_invariant_spec.
+Print Assumptions C15_split_channel_invariant_partial.
+Print Assumptions C15_merge_identical_samples_invariant.
+Print Assumptions C15_signal_rescale_covariant_spec.
+Print Assumptions C15_profile_invariant.
+Print Assumptions C15_profile_invariant_argmin.
